@@ -100,68 +100,43 @@ func cobsDecodeInplace(b []byte) (int, error) {
 // bytes and must end with a NULL byte. This Read blocks until we
 // get an entire packet or an error. b must be large enough to hold the entire packet.
 func (cw *CobsWrapper) Read(b []byte) (int, error) {
-	// we read data until we see a zero or hit the size of the b buffer
-	// current location in read buffer
-	var cur int
-
-	// first, process any leftover bytes looking for packets
-	if cw.readLeftover.Len() > 0 {
-		foundStart := false
-
+	for {
+		// bytes received so far that have not been returned yet are kept in
+		// readLeftover; look for a complete packet in them first
 		lb := cw.readLeftover.Bytes()
-		for i := 0; i < len(lb); i++ {
-			if !foundStart {
-				if lb[i] == 0 {
-					continue
-				}
-				foundStart = true
-			}
+		start := 0
+		for start < len(lb) && lb[start] == 0 {
+			start++
+		}
+		for i := start; i < len(lb); i++ {
 			if lb[i] == 0 {
-				// found end of packet, copy to read buffer and process
-				_, _ = cw.readLeftover.Read(b[0:i])
-				return cobsDecodeInplace(b[0:i])
+				// found end of packet, consume it (including any leading
+				// nulls) and decode it in the caller's buffer
+				if i+1 > len(b) {
+					cw.readLeftover.Next(i + 1)
+					return 0, ErrCobsTooMuchData
+				}
+				n, _ := cw.readLeftover.Read(b[:i+1])
+				return cobsDecodeInplace(b[:n])
 			}
 		}
 
-		// write leftover bytes to beginning of buffer
-		bBuf := bytes.NewBuffer(b)
-		c, _ := bBuf.Write(cw.readLeftover.Bytes())
+		// no complete packet yet, leading nulls carry no information
+		cw.readLeftover.Next(start)
 
-		cur += c
-	}
+		if cw.readLeftover.Len() >= len(b) ||
+			cw.readLeftover.Len() > cw.maxMessageLength {
+			cw.readLeftover.Reset()
+			return 0, ErrCobsTooMuchData
+		}
 
-	foundStart := false
-
-	for {
-		c, err := cw.dev.Read(b[cur:])
+		// b is not in use yet, so receive into it
+		c, err := cw.dev.Read(b)
 		if err != nil {
 			return 0, err
 		}
 
-		if c > 0 {
-			// look for zero in buffer
-			for i := 0; i < c; i++ {
-				if !foundStart {
-					if b[cur+i] == 0 {
-						continue
-					}
-					foundStart = true
-				}
-				if b[cur+i] == 0 {
-					// found end of packet, decode in place
-					// first save off extra bytes
-					cw.readLeftover.Write(b[cur+i+1 : cur+c])
-
-					return cobsDecodeInplace(b[0 : cur+i+1])
-				}
-			}
-		}
-
-		cur += c
-
-		if cur >= len(b) || cur > cw.maxMessageLength {
-			return 0, ErrCobsTooMuchData
-		}
+		cw.readLeftover.Write(b[:c])
 	}
 }
 
